@@ -17,7 +17,7 @@ RUNPY = os.path.join(HERE, "run.py")
 
 TIERS = {
     # property: tier -> (runs, wall budget seconds for the main batch, hash-seed pair fraction)
-    "C20": {"quick": (2400, 120, 0.05), "thorough": (60000, 2400, 0.5)},
+    "C20": {"quick": (2000, 120, 0.05), "thorough": (60000, 2400, 0.5)},
     "C17": {"quick": (4000, 60, 0.05), "thorough": (150000, 1500, 0.2)},
     "C15": {"quick": (600, 80, 0.05), "thorough": (15000, 1500, 0.2)},
 }
